@@ -79,6 +79,9 @@ func derefValue(rvalue reflect.Value) reflect.Value {
 }
 
 func doMatchMatches(expression *grammar.MatchExpression, value reflect.Value) (bool, error) {
+	if !value.IsValid() {
+		return false, errors.New("Value is nil and not convertible to []byte")
+	}
 	if !value.Type().ConvertibleTo(byteSliceTyp) {
 		return false, fmt.Errorf("Value of type %s is not convertible to []byte", value.Type())
 	}
